@@ -76,8 +76,46 @@ def oracle_transfers(ctx, stores):
     return bad
 
 
+def oracle_dynamic(ctx, stores):
+    """execute the program concretely: every control transfer actually made between two instructions of
+    one activation is an edge of the finished graph, and no executed instruction is reported unreachable"""
+    import random, interp
+    sb = [(f, b) for f, b, _ in stores]
+    impl = lib.run_impl(ctx, [lib.store_cmd("cfg live -", f, b) for f, b in sb], tag="oracle-dyn")
+    diag = lib.run_impl(ctx, [lib.store_cmd("diag -", f, b) for f, b in sb], tag="oracle-dyn-diag")
+    bad = []
+    transfers = 0
+    for (f, b, tag), line, dl in zip(stores, impl, diag):
+        g = dump.parse(lib._PICKS.sub("", line))
+        if g is None:
+            continue
+        ns = g["nodes"]
+        # the property quantifies over programs whose every path ends in ret or an exit ecall: a node that can
+        # run off the end (no successor, not a return, not an ecall) puts the program outside it - the analyzer
+        # deliberately prunes such code and everything that leads only to it
+        if any((not n.nexts) and not dump.is_return(n) and not dump.is_ecall(n) and n.kind != "progentry" for n in ns):
+            continue
+        rng = random.Random(ctx.seed * 7919 + len(line))
+        _f, edges, executed = interp.run_graph(g, rng, runs=2)
+        why = None
+        for (i, j, kind) in edges:
+            transfers += 1
+            if i < len(ns) and j < len(ns) and j not in ns[i].nexts:
+                why = "execution goes from node %d to node %d (%s) but the graph has no such edge" % (i, j, kind)
+                break
+        st, items = pipe.parse_diag_line(lib._PICKS.sub("", dl))
+        unreachable = set(it[4][0] for it in items if it[1] == "Unreachable line of code")
+        for i in executed:
+            if i < len(ns) and ns[i].kind not in ("progentry", "funcentry") and ns[i].raw in unreachable:
+                why = "node %d is executed but reported as unreachable code" % i
+        if why:
+            bad.append(dict(files=f, base=b, kind=tag, why=why, graph=line[:1200]))
+    ctx.coverage["executed_transfers_checked"] = transfers
+    return bad
+
+
 def both(ctx, stores):
-    return oracle(ctx, stores) + oracle_transfers(ctx, stores)
+    return oracle(ctx, stores) + oracle_transfers(ctx, stores) + oracle_dynamic(ctx, stores)
 
 
 def run(ctx):
